@@ -25,8 +25,9 @@ def AtToken (σ : PState) (pos : Nat) : Prop := ∃ k, k ≤ σ.toks.length ∧ 
 /-- `σ'` is `σ` with some tokens dropped from the front -/
 def Drops (σ σ' : PState) : Prop := ∃ pre, σ.toks = pre ++ σ'.toks ∧ σ'.eofPos = σ.eofPos
 
-/-- what a syntax error raised from `σ` satisfies: it blames a token ahead, and `left` counts tokens still there -/
-def ErrOK (σ : PState) (pos left : Nat) : Prop := AtToken σ pos ∧ left ≤ σ.toks.length
+/-- what a syntax error raised from `σ` satisfies: `left` counts the tokens from the blamed one on, and the reported
+offset is the start of exactly that token (the EOF offset when `left = 0`) -/
+def ErrOK (σ : PState) (pos left : Nat) : Prop := left ≤ σ.toks.length ∧ pos = posAt σ (σ.toks.length - left)
 
 class ErrAt {α} (m : P α) : Prop where
   ok : ∀ σ a σ', m σ = .ok (a, σ') → Drops σ σ'
@@ -49,16 +50,37 @@ theorem AtToken.of_drops {a b : PState} {pos : Nat} (h : Drops a b) (hp : AtToke
     rw [← List.drop_drop]; simp
   rw [this]
 
-theorem ErrOK.of_drops {a b : PState} {pos l : Nat} (h : Drops a b) (hp : ErrOK b pos l) : ErrOK a pos l := by
-  refine ⟨AtToken.of_drops h hp.1, ?_⟩
-  obtain ⟨pre, e1, _⟩ := h
-  have := hp.2
-  rw [e1]; simp; omega
+theorem ErrOK.atToken {σ : PState} {pos l : Nat} (h : ErrOK σ pos l) : AtToken σ pos :=
+  ⟨σ.toks.length - l, Nat.sub_le _ _, h.2⟩
 
-theorem errOK_cur (σ : PState) : ErrOK σ σ.cur.start σ.toks.length := ⟨by
-  refine ⟨0, Nat.zero_le _, ?_⟩
+theorem ErrOK.of_drops {a b : PState} {pos l : Nat} (h : Drops a b) (hp : ErrOK b pos l) : ErrOK a pos l := by
+  obtain ⟨pre, e1, f1⟩ := h
+  obtain ⟨hl, hpos⟩ := hp
+  refine ⟨by rw [e1]; simp; omega, ?_⟩
+  rw [hpos]
+  unfold posAt
+  rw [e1, f1]
+  have : (pre ++ b.toks).length - l = pre.length + (b.toks.length - l) := by simp; omega
+  rw [this]
+  have : (pre ++ b.toks).drop (pre.length + (b.toks.length - l)) = b.toks.drop (b.toks.length - l) := by
+    rw [← List.drop_drop]; simp
+  rw [this]
+
+theorem errOK_cur (σ : PState) : ErrOK σ σ.cur.start σ.toks.length := by
+  refine ⟨Nat.le_refl _, ?_⟩
   unfold posAt PState.cur
-  cases σ.toks <;> simp [eofToken], Nat.le_refl _⟩
+  cases σ.toks <;> simp [eofToken]
+
+theorem errOK_next (σ : PState) (h : σ.toks ≠ []) : ErrOK σ σ.adv.cur.start (σ.toks.length - 1) := by
+  refine ⟨Nat.sub_le _ _, ?_⟩
+  unfold posAt
+  cases ht : σ.toks with
+  | nil => exact absurd ht h
+  | cons t r =>
+    have : (t :: r).length - ((t :: r).length - 1) = 1 := by simp
+    rw [this]
+    simp only [PState.adv, ht, PState.cur, List.drop_succ_cons, List.drop_zero]
+    cases r <;> simp [eofToken]
 
 theorem atToken_cur (σ : PState) : AtToken σ σ.cur.start := by
   refine ⟨0, Nat.zero_le _, ?_⟩
@@ -155,6 +177,23 @@ instance many_errAt {α} {close : TokenKind} {item : P α} [ErrAt item] (k : Nat
   | zero => unfold many; infer_instance
   | succ k ih => unfold many; infer_instance
 
+/-- an empty result of the loop: the closing token was current at the start -/
+theorem many_nil {α} {close : TokenKind} {item : P α} {k : Nat} {σ σ' : PState}
+    (h : many close item k σ = .ok ([], σ')) : σ.cur.kind = close := by
+  cases k with
+  | zero => simp [many] at h
+  | succ k =>
+    simp only [many] at h
+    obtain ⟨b, σ1, hs, h⟩ := bind_ok.mp h
+    cases b
+    · simp only [Bool.false_eq_true, if_false, bind_ok, pure_ok] at h
+      obtain ⟨x, σ2, _, xs, σ3, _, hc, _⟩ := h
+      cases hc
+    · unfold skip at hs
+      split at hs
+      · assumption
+      · simp at hs
+
 instance reverse_errAt {α} {opn close : TokenKind} {item : P α} [hi : ErrAt item] {z : Bool} :
     ErrAt (reverse opn item close z) := by
   constructor
@@ -186,7 +225,16 @@ instance reverse_errAt {α} {opn close : TokenKind} {item : P α} [hi : ErrAt it
         · exact (many_errAt _).err _ _ _ _ h3
         · split at h4
           · simp only [fail_run, Except.error.injEq, PErr.syntax.injEq] at h4
-            rw [← h4.1, ← h4.2.2]; exact ⟨atToken_cur σ1, by have := ((many_errAt (close := close) (item := item) _).ok _ _ _ ‹_›); obtain ⟨pre, e1, _⟩ := this; rw [e1]; simp⟩
+            -- unreachable: an empty list means the first `skip close` succeeded, which the early check excludes
+            rename_i hnc hm hz
+            exfalso
+            have hemp : nodes = [] := by
+              cases nodes with
+              | nil => rfl
+              | cons _ _ => simp at hz
+            subst hemp
+            have hz' : z = true := by cases z <;> simp_all
+            exact hnc ⟨hz', many_nil hm⟩
           · simp at h4
 
 /-! ### the parser's functions -/
@@ -327,17 +375,21 @@ instance : ErrAt parseInputObjectTypeDefinition := by unfold parseInputObjectTyp
 instance : ErrAt parseTypeExtensionDefinition := by unfold parseTypeExtensionDefinition; infer_instance
 instance : ErrAt parseDirectiveDefinition := by unfold parseDirectiveDefinition; infer_instance
 
-/-- `fail p` where `p` is the start of a token ahead -/
-theorem fail_errAt {α} (σ : PState) (p : Nat) (hp : AtToken σ p) :
-    (∀ a σ', (fail p : P α) σ = .ok (a, σ') → Drops σ σ') ∧ (∀ pos b l, (fail p : P α) σ = .error (.syntax pos b l) → ErrOK σ pos l) :=
-  ⟨fun a σ' h => by simp at h, fun pos b l h => by simp at h; rw [← h.1, ← h.2.2]; exact ⟨hp, Nat.le_refl _⟩⟩
+/-- what `left` is recorded for a blame of the current (`ahead = false`) or the next token -/
+def leftOf (ahead : Bool) (σ : PState) : Nat := if ahead then σ.toks.length - 1 else σ.toks.length
 
-theorem dispatch_errAt (kw : Token) (σ : PState) (hkw : AtToken σ kw.start) :
-    (∀ a σ', dispatchKeyword kw σ = .ok (a, σ') → Drops σ σ') ∧
-      (∀ pos b l, dispatchKeyword kw σ = .error (.syntax pos b l) → ErrOK σ pos l) := by
+/-- `failAt ahead p` where `p` is the start of the token it blames -/
+theorem failAt_errAt {α} (ahead : Bool) (σ : PState) (p : Nat) (hp : ErrOK σ p (leftOf ahead σ)) :
+    (∀ a σ', (failAt ahead p : P α) σ = .ok (a, σ') → Drops σ σ') ∧
+      (∀ pos b l, (failAt ahead p : P α) σ = .error (.syntax pos b l) → ErrOK σ pos l) :=
+  ⟨fun a σ' h => by simp at h, fun pos b l h => by simp at h; rw [← h.1, ← h.2.2]; exact hp⟩
+
+theorem dispatch_errAt (ahead : Bool) (kw : Token) (σ : PState) (hkw : ErrOK σ kw.start (leftOf ahead σ)) :
+    (∀ a σ', dispatchKeyword ahead kw σ = .ok (a, σ') → Drops σ σ') ∧
+      (∀ pos b l, dispatchKeyword ahead kw σ = .error (.syntax pos b l) → ErrOK σ pos l) := by
   unfold dispatchKeyword
   by_cases h0 : kw.kind ≠ .name
-  · rw [if_pos h0]; exact fail_errAt σ _ hkw
+  · rw [if_pos h0]; exact failAt_errAt ahead σ _ hkw
   rw [if_neg h0]
   by_cases c0 : kw.value = "fragment"
   · rw [if_pos c0]
@@ -383,11 +435,12 @@ theorem dispatch_errAt (kw : Token) (σ : PState) (hkw : AtToken σ kw.start) :
   · rw [if_pos c10]
     exact ⟨fun a σ' h => (inferInstance : ErrAt parseDirectiveDefinition).ok σ a σ' h, fun pos b l h => (inferInstance : ErrAt parseDirectiveDefinition).err σ pos b l h⟩
   rw [if_neg c10]
-  exact fail_errAt σ _ hkw
+  exact failAt_errAt ahead σ _ hkw
 
-/-- `keywordToken` leaves the state alone and returns the current token or the one after it -/
+/-- `keywordToken` leaves the state alone and returns the current token or, after a description, the one after it -/
 theorem keywordToken_spec (σ : PState) :
-    (∀ kw σ', keywordToken σ = .ok (kw, σ') → σ' = σ ∧ AtToken σ kw.start) ∧
+    (∀ kw σ', keywordToken σ = .ok (kw, σ') → σ' = σ ∧
+        ErrOK σ kw.start (leftOf (decide (σ.cur.kind = .string ∨ σ.cur.kind = .blockString)) σ)) ∧
       (∀ pos b l, keywordToken σ = .error (.syntax pos b l) → ErrOK σ pos l) := by
   unfold keywordToken
   constructor
@@ -405,9 +458,14 @@ theorem keywordToken_spec (σ : PState) :
       split at h
       · simp at h
       · obtain ⟨rfl, rfl⟩ := pure_ok.mp h
-        exact ⟨rfl, atToken_next σ hne⟩
-    · obtain ⟨rfl, rfl⟩ := pure_ok.mp h
-      exact ⟨rfl, atToken_cur σ⟩
+        refine ⟨rfl, ?_⟩
+        simp only [leftOf, hk, decide_true, if_true]
+        exact errOK_next σ hne
+    · rename_i hk
+      obtain ⟨rfl, rfl⟩ := pure_ok.mp h
+      refine ⟨rfl, ?_⟩
+      simp only [leftOf, hk, decide_false, Bool.false_eq_true, if_false]
+      exact errOK_cur σ
   · intro pos b l h
     simp only [bind_error, cur_run, Except.ok.injEq, Prod.mk.injEq, reduceCtorEq, false_or] at h
     obtain ⟨_, _, ⟨rfl, rfl⟩, h⟩ := h
@@ -420,24 +478,25 @@ theorem keywordToken_spec (σ : PState) :
       simp only [bind_error, lookahead_run, Except.ok.injEq, Prod.mk.injEq, reduceCtorEq, false_or] at h
       obtain ⟨_, _, ⟨rfl, rfl⟩, h⟩ := h
       split at h
-      · simp only [fail_run, Except.error.injEq, PErr.syntax.injEq] at h
-        rw [← h.1, ← h.2.2]; exact ⟨atToken_next σ hne, Nat.le_refl _⟩
+      · simp only [failAt_run, if_true, Except.error.injEq, PErr.syntax.injEq] at h
+        rw [← h.1, ← h.2.2]; exact errOK_next σ hne
       · simp at h
     · simp at h
 
 instance : ErrAt parseTypeSystemDefinition := by
   constructor
   · intro σ a σ' h
-    simp only [parseTypeSystemDefinition] at h
-    obtain ⟨kw, σ1, h1, h2⟩ := bind_ok.mp h
+    simp only [parseTypeSystemDefinition, bind_ok, cur_run, Except.ok.injEq, Prod.mk.injEq] at h
+    obtain ⟨_, _, ⟨rfl, rfl⟩, kw, σ1, h1, h2⟩ := h
     obtain ⟨rfl, hkw⟩ := (keywordToken_spec σ).1 kw σ1 h1
-    exact (dispatch_errAt kw σ1 hkw).1 a σ' h2
+    exact (dispatch_errAt _ kw σ1 hkw).1 a σ' h2
   · intro σ pos b l h
-    simp only [parseTypeSystemDefinition] at h
-    rcases bind_error.mp h with h1 | ⟨kw, σ1, h1, h2⟩
+    simp only [parseTypeSystemDefinition, bind_error, cur_run, Except.ok.injEq, Prod.mk.injEq, reduceCtorEq, false_or] at h
+    obtain ⟨_, _, ⟨rfl, rfl⟩, h⟩ := h
+    rcases h with h1 | ⟨kw, σ1, h1, h2⟩
     · exact (keywordToken_spec σ).2 pos b l h1
     · obtain ⟨rfl, hkw⟩ := (keywordToken_spec σ).1 kw σ1 h1
-      exact (dispatch_errAt kw σ1 hkw).2 pos b l h2
+      exact (dispatch_errAt _ kw σ1 hkw).2 pos b l h2
 
 instance : ErrAt parseDefinition := by
   unfold parseDefinition
@@ -466,7 +525,7 @@ theorem parseToks_error_at_token {toks : List Token} {eofPos pos : Nat} {b : Boo
   | error e =>
     simp only [hp, Except.error.injEq] at h
     subst h
-    exact ((inferInstance : ErrAt parseDocument).err _ _ _ _ hp).1
+    exact ((inferInstance : ErrAt parseDocument).err _ _ _ _ hp).atToken
 
 /-- a type reference never reports a syntax error itself (D-03b: `parseType` has no failing path) -/
 theorem parseTypeFuel_no_syntax_error : ∀ (n : Nat) (σ : PState) (pos : Nat) (b : Bool) (l : Nat),
